@@ -235,6 +235,11 @@ func DrawWorld(t *rapid.T, cfg WorldCfg) (*World, *Drawn) {
 		}
 		w.ChainNUL = rapid.IntRange(0, 2).Draw(t, "nul") == 0
 		d.add(w.ChainNUL, "nul")
+		w.ChainStyle = rapid.SampledFrom([]string{"", "", "", "", "crlf", "blank-lines-between-blocks", "no-final-newline"}).Draw(t, "chainPemStyle")
+		if w.ChainStyle == "no-final-newline" && w.ChainNUL {
+			w.ChainStyle = "" // an END line followed directly by a NUL is not a form the property claims
+		}
+		d.add(w.ChainStyle != "", "pem-chain-written-"+w.ChainStyle)
 		w.Sgx.WithPlatformIns = rapid.Bool().Draw(t, "platformInstance")
 		w.Sgx.WithConfig = rapid.Bool().Draw(t, "configuration")
 		// the order of the elements inside the certificate's SGX extension is free
